@@ -57,6 +57,21 @@ CLAIMED = {
         "Theorems (arbitrary float algebra, axiom-free unless stated): the closures the lambda visitor builds compute the class's mathematical function (Reals) and agree with the eval_double rules; after a successful init, call returns exactly what direct evaluation computes at the inputs; CSE on/off give equal results given a faithful cse(); re-initialising from ANY state (any history incl. failed inits) behaves like a fresh object. Tied by running histories of 1-4 inits (CSE on/off, failing inits, symbols named like CSE replacements) and calls on the library and the model, bit-exact incl. exception/crash outcomes.",
         "Trusted: as C12; cse() faithfulness is C37's matter (explicit hypothesis); Add/Mul dictionary fold vs get_args fold not proved equal.",
         "7 (C13)"),
+    "C16": (
+        "Rocq proof over an executable model of StrPrinter (term order PrinterBasicCmp, precedence, parenthesisation, numerator/denominator split; flags REGENERATED from strprinter.cpp) and the reference parser of C17 + byte-exact correspondence of str(e) and of parse(str(e))",
+        "Theorems: every permutation of a sum's dictionary prints the same string (for all well-formed sums, using the C02 order theorems) - dictionary order does not leak into the output; parse_ref(print e) gives back e's syntax on the fragment Symbol / non-negative Integer / Pow (partial: Add, Mul, functions, relationals by correspondence only); refutation: 0.0 and -0.0 are eq but print differently (known finding). Tied by comparing the model's string byte for byte with str(e) (incl. %.15g doubles) and the model's parse of it with parse(str(e)); oracle eq(parse(str(e)), e) on the library.",
+        "Trusted: Coq kernel; translator for names_/precedence flags; extraction; known findings (listed): signed zero, non-finite doubles print as inf.0, f() does not parse, symbols named like constants.",
+        "7 (C16)"),
+    "C17": (
+        "Rocq proof over a precedence-climbing reference parser driven by a precedence table REGENERATED from parser.yy (%left/%right lines), token classes from tokenizer.re, name tables and strtol base from parser.cpp + correspondence of parse(s) on strings rendered from random syntax trees",
+        "Unbounded theorems (all token lists): the reference parser is sound, complete and unambiguous w.r.t. the stratified conventional grammar (left-associative + - * /, right-associative ** binding tighter than unary minus on its left, implicit multiplication, calls); maximal munch; the generated precedence table equals the conventional one (breaks when a %left/%right line changes); decimal digit strings denote their base-10 value whatever the leading zeros; other literals are floats; lexer facts. The bison LALR automaton and re2c DFA (generated C++) are tied by correspondence only: the library's parse(s) must equal the expression built from the reference tree.",
+        "Trusted: Coq kernel; translator; extraction; strtod for float values in the driver.",
+        "7 (C17)"),
+    "C18": (
+        "Rocq proof of totality and statelessness of the reference lexer/parser/Parser-object state machine on arbitrary byte lists + history correspondence (reused vs fresh parser) with crash/hang observation in forked children",
+        "Unbounded theorems for EVERY byte list and every history: lexer and parser terminate within fuel length+1; a parser object reused for any sequence of inputs (incl. failed parses, modelling the stale `res` field) returns what a fresh parser returns; nothing after the first NUL byte influences the result. Memory safety of the generated C++ is outside the theorem: observed per input (grammar-mutated strings, raw bytes, deep nesting) in forked children; parse_sbml has the oracle only.",
+        "Trusted: as C17; known finding (listed): parse(\"1/acoth(0.0)\") aborts inside a function constructor.",
+        "7 (C18)"),
     "C19": (
         "Rocq proof over an executable model of the cereal portable-binary codec of serialize-cereal.h (encoder and decoder on labelled DAGs, id table, both byte orders, DenseMatrix) + byte-exact cross round trips against the rebuilt library",
         "Unbounded theorems: for every labelled DAG of serialisable nodes (any sharing, either byte order) decode(encode w) returns the same expression and the same labelling (shared subexpressions restored), per-node payload round trips (decimal integer strings, canonical rationals, double bit patterns, containers in container order), DenseMatrix round trip. Tied every run by decode_model(dumps_impl(e)) = loads_impl, loads_impl(encode_model(e)) = decode_model, and encode_model(decode_model(B)) = B byte for byte on library streams.",
@@ -137,6 +152,11 @@ CLAIMED = {
         "Unbounded theorems (every history, every limit < 2^31, every sieve size 1..2^15 KB): no array access leaves its array, every loop terminates, generate_primes returns exactly the primes up to the limit in increasing order, iterators return the prime sequence without gaps or repeats. The model is tied to the code by running generated histories on the extracted model and on the library rebuilt from /repo and comparing every output.",
         "Trusted: Coq kernel; extraction (ExtrOcamlBasic); the hand transcription of prime_sieve.cpp into coq/C33/SieveModel.v, validated on every run by correspondence only (differential testing, not proof); floor(sqrt(double)) modelled as N.sqrt; valarray slice semantics; unbounded iterators (limit 0) are outside the theorems (Bertrand's postulate only proved below 2^31).",
         "7 (C33)"),
+    "C36": (
+        "Rocq proof at rule level (any field for numer/denom; C = RxR with Coq's real functions for rewrite/conjugate/real_imag rules) over models of NumerDenomVisitor, RealImagVisitor, the RewriteAs* rule tables, trig_to_sqrt and conjugate + exact-tree / recipe correspondence + numeric oracle",
+        "Theorems: as_numer_denom's rules give n/d = e given arithmetic soundness of the constructors on defined operands (explicit premise record; integer-power laws proved in every field; non-integer powers refuted = known finding); all 22 rewrite_as_exp/sin/cos rules, the 12 conjugate rules, the 24 trig_to_sqrt rules (principal real domains) and the real/imaginary-part identities for sin, cos, sinh, cosh, tan, cot, tanh, coth preserve value; pow_number's binary loop returns z^n for n < 2^64. The visitor traversals around the rules and values at general complex points are tied by correspondence and a numeric oracle at sampled points (testing, labelled).",
+        "Trusted: Coq kernel; Reals axioms; arithmetic constructors as in C03/C07 (premises); known findings (listed): cot imaginary part sign (pinned by the repository's test), (n/d)**r split for negative d, as_real_imag of non-integer powers.",
+        "7 (C36)"),
     "C37": (
         "Rocq-proved checker (check_cse sound for ALL outputs) run on every implementation output + executable models of tree_cse and opt_cse with theorems on the tree_cse part + exact correspondence",
         "Theorems: whenever the extracted checker accepts (inputs, replacements, reduced), back-substitution last-to-first reproduces expressions equal to the inputs, every replacement symbol is fresh and pairwise distinct, and each replacement mentions only earlier symbols; for tree_cse itself: fresh increasing symbol names (whole cse()), freshness, acyclicity and faithfulness for every compositional semantics on well-formed inputs (guard excludes FunctionSymbols named add/mul/pow). opt_cse's regrouping is modelled and compared exactly but its faithfulness is validated per explored instance by the proved checker, not proved universally - the evidence says so.",
